@@ -7,7 +7,8 @@ The obligation is exported by z3 as SMT-LIB 2 text and adapted to cvc5's front e
     reserved or overloaded in cvc5);
   * testers of the nullary constructors, `((_ is absent) t)`, become equalities `(= t V_absent)` (cvc5 1.0 rejects
     testers of overloaded constants);
-  * z3's internal `seq.nth_i` / `seq.nth_u` are printed back as `seq.nth`.
+  * z3's internal `seq.nth_i` / `seq.nth_u` are printed back as `seq.nth`, and `((_ f 0) x)` (z3's rendering of an
+    application of a recursive definition in some contexts) as `(f x)`.
 cvc5 runs with --strings-exp --dt-nested-rec --enum-inst.  The answer is recorded next to z3's; `sat` from cvc5 on an
 obligation z3 discharged is a disagreement between back ends and is reported as a checker fault, never ignored;
 `unknown`, a timeout or a front-end error mean "not confirmed by the second back end" and change no verdict."""
@@ -85,6 +86,9 @@ def _testers(t):
 
 def convert(smt2):
     t = re.sub(_TOK % 'fp', 'fp_pred', smt2)
+    # z3 prints an application of a recursive definition f as ((_ f 0) x) in some contexts
+    for f in set(re.findall(r'define-funs?-rec \(\s*\(\s*([^\s()]+)', t)) | set(re.findall(r'define-fun-rec\s+([^\s()]+)', t)):
+        t = t.replace('(_ %s 0)' % f, f)
     t = _testers(t)
     # string literals must not be touched by the renaming: split them out
     parts = re.split(r'("(?:[^"]|"")*")', t)
